@@ -1518,7 +1518,8 @@ func (e *compiledFunctionLiteral) compile() (prg *Program, name unistring.String
 		for _, b := range s.bindings[:paramsCount] {
 			b.isVar = true
 		}
-		e.c.compileDeclList(e.declarationList, true)
+		// 'var arguments' is the implicit binding of the function, except in an arrow function which has none
+		e.c.compileDeclList(e.declarationList, e.typ != funcArrow)
 		e.c.createFunctionBindings(funcs)
 		e.c.compileLexicalDeclarations(body, true)
 		if e.isExpr && e.name != nil {
